@@ -733,7 +733,7 @@ func r02e(c *core.Ctx) {
 				return
 			}
 			r := core.FieldAddrRef(fa)
-			if r.Struct == nil || r.Struct.Obj().Name() != "Msg" {
+			if r.Struct == nil || core.StructName(r.Struct) != "Msg" {
 				return
 			}
 			for _, s := range want {
